@@ -917,7 +917,7 @@ def main(tier: str, seed: int) -> int:
     chk.cov["generated_members_validated"] = len(members)
     chk.cov["build_and_step_wall_s"] = round(time.time() - t_build, 1)
 
-    # 5. drift (outside the statement): what reset does to a node declared OFF
+    # 5. what reset does to a node declared OFF (note; the #after_env_reset probes judge it)
     try:
         d = scenarios.dut_net("computer", 3, 3)
         for n in d["cfg"]["simulation"]["network"]["nodes"]:
@@ -927,8 +927,8 @@ def main(tier: str, seed: int) -> int:
         node = g.simulation.network.get_node_by_hostname(d["dut"])
         s0 = node.operating_state.name
         g.setup_for_episode(episode=1)
-        chk.notes.append(f"drift (not judged): a computer declared operating_state OFF is {s0} at the return of from_config and "
-                         f"{node.operating_state.name} after setup_for_episode (what reset() calls next)")
+        chk.notes.append(f"a computer declared operating_state OFF is {s0} at the return of from_config and "
+                         f"{node.operating_state.name} after setup_for_episode (judged since session four by the #after_env_reset probes)")
     except Exception as ex:  # noqa
         chk.notes.append(f"drift probe failed: {type(ex).__name__}")
 
